@@ -71,8 +71,11 @@ func (g *Generator) NL() {
 // Comment writes comment lines prefixed with "// ".
 func (g *Generator) Comment(lines ...string) {
 	for _, line := range lines {
-		line = strings.TrimSpace("// " + line)
-		g.Printf("%s\n", line)
+		// A line break inside a comment string must not end the comment.
+		for _, l := range strings.Split(line, "\n") {
+			l = strings.TrimSpace("// " + l)
+			g.Printf("%s\n", l)
+		}
 	}
 }
 
